@@ -21,7 +21,8 @@ ASSUMPTIONS = [
     "G2: getnameinfo(NI_NUMERICHOST|NI_NUMERICSERV) returns the canonical text (inet_ntop) and the decimal port; checked on every literal",
     "service names are resolved by the image's services database; names absent from it are skipped (count recorded)",
 ]
-TRUSTED = ["tools/cxx2lean.py (source-derived tie, DESIGN.md 0.7): clang-14 JSON AST, chrono unit semantics read from the desugared types, unbounded Int for signed arithmetic (overflow = UB), abstract memcmp / container queries",
+TRUSTED = ["Drive/Uri.lean: parsing of transcript lines into the typed observations of Spec/Uri.lean (toOutcome, toGai; no property clause)",
+           "tools/cxx2lean.py (source-derived tie, DESIGN.md 0.7): clang-14 JSON AST, chrono unit semantics read from the desugared types, unbounded Int for signed arithmetic (overflow = UB), abstract memcmp / container queries",
            "glibc getaddrinfo / getnameinfo / inet_ntop (ground truth of the literal text)",
            "libstdc++ std::stoll / std::to_string semantics (modelled, not verified)"]
 ALL_TAGS = ["op.uri", "op.pair", "op.lit", "op.name", "uri", "pair", "ok", "throw.runtime_error", "throw.out_of_range",
@@ -146,7 +147,7 @@ def extra_coverage(stats):
     return {"service_names_skipped": list(SKIPPED)}
 
 
-TECHNIQUE = "Lean 4 theorems (spellings agree, to_string round trip, decimal round trip, no silent wrap for all inputs; proved negation for the pre-fix code) + model/implementation correspondence on generated literals and numeric services"
+TECHNIQUE = "Lean 4 theorems (spellings agree, to_string round trip, decimal round trip, no silent wrap for all inputs; proved negation for the pre-fix code; the run-time oracle Spec/Uri.lean accepts every trace of the model over every name service satisfying G1/G2: spec_holds_on_model) + model/implementation correspondence on generated literals and numeric services"
 LEVEL_TEXT = ("Machine-checked Lean 4 theorems about the executable model of UriDissect / ParseHostServ / to_string: for every host text "
               "(subject to the stated side conditions: no ':' '/' for the plain form, no '/' and line terminators for the bracketed "
               "form), every port < 65536, every \\w* scheme and every single-line path, all documented spellings (incl. the service-less host/path whose first colon sits inside the free-text path: hostpath_spelling) are dissected to the "
@@ -158,7 +159,16 @@ LEVEL_TEXT = ("Machine-checked Lean 4 theorems about the executable model of Uri
               "/repo on every run: literal endpoints from raw bytes in every spelling, service names, and out-of-range / prefixed "
               "numeric services in all three positions run on the real constructors; the intercepted getaddrinfo arguments and the "
               "outcome class are compared with the model; Host()/Port()/Service()/IsV6()/to_string()/re-parse/equality of spellings "
-              "are checked against the harness's own inet_ntop / integer ground truth.")
+              "are checked against the harness's own inet_ntop / integer ground truth by the typed total predicate Spec/Uri.lean "
+              "(specStep/specRun, mode fidelity; the driver only parses lines into Obs and calls it). spec_holds_on_model "
+              "(Props/C12.lean): for EVERY name service ns (getaddrinfo, getnameinfo, port and family of a socket address as explicit "
+              "parameters) that satisfies G1/G2 stated as the hypothesis structure NameService.Lawful (satisfiable: toyNS_lawful for a "
+              "concrete resolver) and every history of any length in the decidable domain histOk (uri / pair with arbitrary bytes; "
+              "literal groups of addresses the resolver knows by their numeric text with \\w* schemes and single-line paths; service "
+              "names the database maps to the port) that predicate accepts the trace of the model (parseUri / parseHostServ / "
+              "Addr.toString + ns) - every spelling yields the ground-truth address, Port()/Service()/to_string/re-parse agree, nothing "
+              "is wrapped; so a spec verdict is a difference between implementation and model (or a violated G1/G2).")
 LEVEL_NOTE = ("Trusted: Lean kernel; axioms propext/Quot.sound/Classical.choice; hand-written model (correspondence on generated inputs "
               "only); harness, vos getaddrinfo shim. G1/G2 (what glibc does with a literal and a numeric service; canonical text) are "
-              "assumptions of the 'same Address' reading of the theorems; the check exercises them on every literal but does not prove them.")
+              "assumptions of the 'same Address' reading of the theorems - since Spec/Uri.lean they are the explicit hypothesis "
+              "NameService.Lawful of spec_holds_on_model; the check exercises them on every literal but does not prove them.")
